@@ -214,6 +214,8 @@ inductive IExpr where
   | band (a : IExpr) (m : Nat) -- `a & m` on a non-negative value, m = 2^j - 1 (checked by the translator): a % (m+1)
   | ctEq (a b : IExpr)         -- subtle.ConstantTimeByteEq(a, b)
   | aget (arr : Nat) (i : IExpr) -- element of an (opaque) array of ints: `digits[i]`, `s[i]`
+  | negI8 (a : IExpr)          -- `-a` on an int8 value: two's-complement wrap ((-a + 128) mod 256 - 128)
+  | lt (a b : IExpr)           -- condition `a < b` (`x > 0` = lt 0 x): 1 / 0
 deriving Repr
 
 /-- a point-valued location -/
@@ -248,6 +250,8 @@ inductive Stmt where
   | tinit (op : TOp) (arr : Nat) (off : IExpr) (n : Nat) (src : Place)
   /-- `table.SelectInto(dst, x)` kept atomic: dst := `tblSelect op arr off x` (the table at arr[off …]) -/
   | tselect (op : TOp) (dst : Place) (arr : Nat) (off : IExpr) (x : IExpr)
+  /-- `if c { a } else { b }` (c a condition, `IExpr.lt`: 1 / 0; the then-branch iff c > 0) -/
+  | ite (c : IExpr) (a b : Stmt)
 deriving Repr
 
 /-- `.block [s₁, …, sₙ]` = s₁; …; sₙ -/
@@ -293,6 +297,12 @@ def setTable (e : PEnv C) (a off n : Nat) (f : Nat → C) : PEnv C :=
       (fun j => cond (Nat.ble off j && Nat.blt j (off + n)) (f (j - off)) (e.arrs a j)) (e.arrs b), e.ints, e.iarrs⟩
 end PEnv
 
+/-- `0 < x`, by the constructors of `Int` (so that it evaluates on `Int.ofNat (n+1)` / `Int.negSucc n`
+    with a symbolic `n`; `C16MulOps.intPos_iff`) -/
+def intPos : Int → Bool
+  | .ofNat (_ + 1) => true
+  | _ => false
+
 def IExpr.eval {C : Type} (O : PointOps C) (e : PEnv C) : IExpr → Int
   | .lit v => v
   | .var i => e.ints i
@@ -304,6 +314,8 @@ def IExpr.eval {C : Type} (O : PointOps C) (e : PEnv C) : IExpr → Int
   | .band a m => Int.ofNat ((a.eval O e).toNat % (m + 1))
   | .ctEq a b => O.ctEq (a.eval O e) (b.eval O e)
   | .aget arr i => e.iarrs arr (i.eval O e).toNat
+  | .negI8 a => (-(a.eval O e) + 128) % 256 - 128
+  | .lt a b => cond (intPos (b.eval O e - a.eval O e)) 1 0
 
 def Place.read {C : Type} (O : PointOps C) (e : PEnv C) : Place → C
   | .pt i => e.pts i
@@ -351,6 +363,7 @@ def runStmt {C : Type} (O : PointOps C) : Stmt → PEnv C → PEnv C
   | .tinit op arr off n src, e => e.setTable arr (off.eval O e).toNat n (O.tblInit op (src.read O e))
   | .tselect op dst arr off x, e =>
       dst.write O e (O.tblSelect op (e.arrs arr) (off.eval O e).toNat (x.eval O e))
+  | .ite c a b, e => cond (intPos (c.eval O e)) (runStmt O a e) (runStmt O b e)
 
 /-- one regenerated function in structured form -/
 structure SFn where
